@@ -100,4 +100,11 @@ func init() {
 		Assumptions: commonAssumptions,
 		Rules:       []string{"C03/kinds", "C03/sides", "C03/rewrite", "C03/gate"},
 	}, ruleC03)
+	register(PropertyMeta{
+		ID:          "C08",
+		Level:       "other",
+		Explanation: "Decided, as path rules over every production of the parser: (endsplit) for every sub-parser obtained from split/splitSemi, on every abstract path to a return or to the end of the variable's scope, either endSplit() was called and its result joined into an error that is assigned or returned, or the path itself tested `pos < len(tokens)` to be false, or a fresh error was recorded after the split - so no token inside a bracketed range is dropped silently; (notfound) the parser treats a notFoundError as `this production is absent` (the caller may try an alternative or end a list), which is only sound if nothing was consumed: an interprocedural fixpoint computes, per production and closure, whether it may return a not-found error and whether it may do so after consuming tokens (token count on the receiver cursor: next +1, prev -1, save/restore of pos, successful sub-productions 'more'; makeErrorOpaque clears; joinErrors joins; case split on callee post-conditions), and every isNotFound(e) decision site must not be reachable by such a dirty not-found; (errortoken) no production compares against or switches on TokenError except to word an error, and reading past the end yields TokenError. Not decided: that re-printing the tree gives back the token sequence for all inputs.",
+		Assumptions: append([]string{"within one production, a hard (non not-found) error makes the caller bail out; token counts are tracked under the hypothesis that an error being propagated is the not-found one"}, commonAssumptions...),
+		Rules:       []string{"C08/endsplit", "C08/notfound", "C08/errortoken"},
+	}, ruleC08EndSplit, ruleC08NotFound, ruleC08ErrorToken)
 }
